@@ -18,7 +18,7 @@ SPEC = {
         "Sema.C06.C06_cmp_preorder", "Sema.C06.C06_sortcmp_preorder", "Sema.C06.C06_sort_exists", "Sema.C06.C06_missing_last",
         "Sema.C06.C06_sort_ties", "Sema.C06.C06_cmp_same_kind", "Sema.C06.C06_cmp_numeric", "Sema.C06.C06_cmp_integers",
         "Sema.C06.C06_float_value_order", "Sema.C06.C06_cmp_cross_kind", "Sema.C06.C06_sort_numeric",
-        "Sema.C06.C06_page", "Sema.C06.C06_page_overflow_witness", "Sema.C06.C06_page_repaired", "Sema.C06.C06_pages_tile", "Sema.C06.C06_pages_prefix", "Sema.C06.C06_pages_disjoint",
+        "Sema.C06.C06_page", "Sema.C06.C06_page_overflow_witness", "Sema.C06.C06_page_repaired", "Sema.C06.C06_pages_tile", "Sema.C06.C06_pages_prefix", "Sema.C06.C06_pages_disjoint", "Sema.C06.C06_page_all",
         "Sema.C06.C06_tree", "Sema.C06.C06_answer", "Sema.C06.C06_search_page",
     ],
     "trusted_base": [
